@@ -19,8 +19,9 @@ section
 variable {pl : List Byte} {lead body tail : List Tick} {acq rel : Nat}
 
 /-- phase 1: nothing happens before the first aligned window that ends at or after `acq + 31` -/
-theorem phase_quiet (H : BurstObserved pl lead body tail acq rel) (hok : PayloadOk pl)
+theorem phase_quiet (H : BurstObserved' pl body tail acq rel) (hok : PayloadOk pl)
     (c : LCfg) (hE : c.maxErrors ≤ 6) (s1 : LState) (hq : Quiescent s1)
+    (N : BTNoHit c s1 body tail acq)
     (j0 : Nat) (hj0 : j0 ≤ 127) (hmis : ∀ t, acq + 31 ≤ t → t < j0 → t % 8 ≠ 7) :
     ∀ t, t ≤ j0 →
       (lrunState c s1 ((body ++ tail).take t)).clock = none
@@ -42,7 +43,7 @@ theorem phase_quiet (H : BurstObserved pl lead body tail acq rel) (hok : Payload
       rw [nsym_run]; have := hq.warm; omega
     have hno : NoHit c (lrunState c s1 ((body ++ tail).take t)) ((body ++ tail)[t]).1 := by
       by_cases he : t < acq + 31
-      · exact noHit_early H c _ t he htb
+      · exact noHit_early N t he htb
       · refine Or.inr (Or.inr ?_)
         rw [err_body H c s1 t (by omega) htb]
         have := werr_preamble_misaligned pl t (by omega) (by omega) (hmis t (by omega) (by omega))
@@ -52,8 +53,9 @@ theorem phase_quiet (H : BurstObserved pl lead body tail acq rel) (hok : Payload
     exact ⟨o2, by rw [o3, i2], o4, rfl⟩
 
 /-- phase 2: the first sync, at the first aligned window `j0 ≥ acq + 31` -/
-theorem phase_sync (H : BurstObserved pl lead body tail acq rel) (hok : PayloadOk pl)
+theorem phase_sync (H : BurstObserved' pl body tail acq rel) (hok : PayloadOk pl)
     (c : LCfg) (hE : c.maxErrors ≤ 6) (hP : c.fc.maxPrefixErr < 15) (s1 : LState) (hq : Quiescent s1)
+    (N : BTNoHit c s1 body tail acq)
     (j0 : Nat) (hj0 : j0 ≤ 127) (hj0a : acq + 31 ≤ j0) (hj07 : j0 % 8 = 7)
     (hmis : ∀ t, acq + 31 ≤ t → t < j0 → t % 8 ≠ 7) :
     (lrunState c s1 ((body ++ tail).take (j0 + 1))).clock = some 1
@@ -64,7 +66,7 @@ theorem phase_sync (H : BurstObserved pl lead body tail acq rel) (hok : PayloadO
   have hlen := H.body_len
   have hfl := frame_length pl
   have hpl := payload_len_ge hok
-  obtain ⟨i1, i2, i3, i4⟩ := phase_quiet H hok c hE s1 hq j0 hj0 hmis j0 (Nat.le_refl _)
+  obtain ⟨i1, i2, i3, i4⟩ := phase_quiet H hok c hE s1 hq N j0 hj0 hmis j0 (Nat.le_refl _)
   have htb : j0 < body.length := by omega
   have htx : j0 < (body ++ tail).length := by rw [List.length_append]; omega
   have hns : 31 ≤ (lrunState c s1 ((body ++ tail).take j0)).nsym := by
@@ -80,9 +82,10 @@ theorem phase_sync (H : BurstObserved pl lead body tail acq rel) (hok : PayloadO
 /-- phase 3: from the first sync to the byte tick after the last payload byte, the byte clock ticks
     every 8 symbols without a resynchronisation, and the framer has been fed
     `0xAB × (19 - q0) ++ payload`; `d` counts the ticks after the sync tick `8 q0 + 7` -/
-theorem phase_synced (H : BurstObserved pl lead body tail acq rel) (hok : PayloadOk pl)
+theorem phase_synced (H : BurstObserved' pl body tail acq rel) (hok : PayloadOk pl)
     (hdash : ∀ h : 4 < pl.length, pl[4] = 45)
     (c : LCfg) (hE : c.maxErrors ≤ 6) (hF : PrefixFacts c.fc pl) (s1 : LState) (hq : Quiescent s1)
+    (N : BTNoHit c s1 body tail acq)
     (q0 : Nat) (h3 : 3 ≤ q0) (h15 : q0 ≤ 15) (hacq : acq + 31 ≤ 8 * q0 + 7)
     (hbase : (lrunState c s1 ((body ++ tail).take (8 * q0 + 7 + 1))).clock = some 1
       ∧ (lrunState c s1 ((body ++ tail).take (8 * q0 + 7 + 1))).lock = false
@@ -163,7 +166,7 @@ theorem phase_synced (H : BurstObserved pl lead body tail acq rel) (hok : Payloa
             · have := werr_payload_misaligned pl hok hdash (8 * q0 + 8 + d) (by omega) (by omega)
                 (by omega) (by omega)
               omega
-          · exact noHit_tail H c _ _ (by omega) htx
+          · exact noHit_tail N _ (by omega) htx
       obtain ⟨o1, o2, o3, o4, o5⟩ := lstep_tick c _ _ ((body ++ tail)[8 * q0 + 8 + d]).2 (d % 8 + 1) hns
         (by rw [i1, hk]) (by omega) hno hhead
       have em : (d + 1) / 8 = d / 8 := by omega
@@ -187,8 +190,9 @@ def GarbageInv (c : LCfg) (s1 : LState) (xs : List Tick) (pl : List Byte) (n rel
 
 /-- phase 4: after the last payload byte the framer reads garbage until it gives up or the power
     history empties; exactly one burst `payload ++ g` comes out -/
-theorem phase_garbage (H : BurstObserved pl lead body tail acq rel) (hok : PayloadOk pl)
+theorem phase_garbage (H : BurstObserved' pl body tail acq rel) (hok : PayloadOk pl)
     (c : LCfg) (s1 : LState) (hq : Quiescent s1)
+    (N : BTNoHit c s1 body tail acq)
     (hbase : (lrunState c s1 ((body ++ tail).take (body.length + 31))).clock = some 0
       ∧ (lrunState c s1 ((body ++ tail).take (body.length + 31))).lock = true
       ∧ (lrunState c s1 ((body ++ tail).take (body.length + 31))).train = 0
@@ -254,8 +258,7 @@ theorem phase_garbage (H : BurstObserved pl lead body tail acq rel) (hok : Paylo
           rw [o1, o2, o3, o4, o5, i2, i3, i4, i6]
           exact ⟨by omega, by congr 1; omega, rfl, rfl, g, inv, rfl, by omega, rfl⟩
     · -- done: quiet until the end of the tail
-      have hno := noHit_tail H c (lrunState c s1 ((body ++ tail).take (body.length + (31 + e))))
-        (body.length + (31 + e)) (by omega) htx
+      have hno := noHit_tail N (body.length + (31 + e)) (by omega) htx
       obtain ⟨o1, o2, o3, o4, _⟩ := lstep_quiet c _ _ ((body ++ tail)[body.length + (31 + e)]).2 hns i1 i3 hno
       right
       rw [o1, o2, o3, o4, i2, i4]
